@@ -14,11 +14,23 @@ use serde_json::json;
 /// calibrated accuracy constants K_m: err <= K_m * A * naccpt * (atol + rtol |y|)
 pub fn k_method(m: Method) -> f64 {
     match m {
-        Method::RK23 => 100.0,
-        Method::DOPRI5 => 60.0,
-        Method::DOP853 => 60.0,
-        Method::RADAU => 30.0,
-        Method::BDF => 250.0,
+        Method::RK23 => 1200.0,
+        Method::DOPRI5 => 400.0,
+        Method::DOP853 => 2500.0,
+        Method::RADAU => 100.0,
+        Method::BDF => 600.0,
+        Method::RK4 => f64::INFINITY,
+    }
+}
+
+/// bound on the 90 % quantile of the per-run worst ratio err / (A naccpt (atol + rtol|y|)), calibrated
+pub fn q90_limit(m: Method) -> f64 {
+    match m {
+        Method::RK23 => 2.0,
+        Method::DOPRI5 => 0.35,
+        Method::DOP853 => 0.6,
+        Method::RADAU => 0.6,
+        Method::BDF => 2.5,
         Method::RK4 => f64::INFINITY,
     }
 }
@@ -127,7 +139,7 @@ pub fn run(ctx: &Ctx) -> (Report, Meta) {
     )
     .assume("closed-form solutions evaluated in f64; amplification factor from the closed-form sensitivity d u(t)/d u0, times cond(P) of the mixing")
     .assume("K_m calibrated on the unchanged tree (>= 10x the worst ratio observed over >= 5 seeds at the thorough tier); GBS reference accepted only if the H and H/2 runs agree to 1e-12")
-    .thresholds(json!({"K_RK23": k_method(Method::RK23), "K_DOPRI5": k_method(Method::DOPRI5), "K_DOP853": k_method(Method::DOP853), "K_RADAU": k_method(Method::RADAU), "K_BDF": k_method(Method::BDF), "ladder_slope_min": 0.5, "one_decade_regression": "error x5 while the tighter run is above half its bound", "rk4_order_min": 3.6}))
+    .thresholds(json!({"K_RK23": k_method(Method::RK23), "K_DOPRI5": k_method(Method::DOPRI5), "K_DOP853": k_method(Method::DOP853), "K_RADAU": k_method(Method::RADAU), "K_BDF": k_method(Method::BDF), "q90_limits (3x the value observed on the unchanged tree, stable to +-20% over seeds)": {"RK23": 2.0, "DOPRI5": 0.35, "DOP853": 0.6, "RADAU": 0.6, "BDF": 2.5}, "ladder_slope_min": 0.5, "one_decade_regression": "error x5 while the tighter run is above half its bound", "rk4_order_min": 3.6}))
     .floor("samples_checked", 20000)
     .floor("runs_checked", 1200)
     .floor("ladders_checked", 40)
@@ -280,6 +292,7 @@ pub fn run(ctx: &Ctx) -> (Report, Meta) {
         rep.count("samples_checked", sol.t.len() as u64);
         rep.worst(&format!("err_over_A_naccpt_tol_{}", m), worst);
         rep.worst(&format!("err_over_A_naccpt_tol_{}_{}", m, cls), worst);
+        rep.push(&format!("ratio_{}", m), worst);
         if !(worst <= km) {
             case["worst_ratio"] = json!(worst);
             case["naccpt"] = json!(sol.naccpt);
@@ -530,5 +543,51 @@ pub fn run(ctx: &Ctx) -> (Report, Meta) {
     rep.merge(rep_b);
     rep.merge(rep_c);
     rep.merge(rep_d);
+    // distribution clause: single runs may hit a blind spot of an error estimator (DOP853's estimate
+    // err5^2/sqrt(err5^2 + 0.01 err3^2) collapses when err5 happens to cross zero), but the bulk of the runs
+    // must sit at the tolerance level: the 90 % quantile of the per-run worst ratio is bounded per method
+    if ctx.only.is_none() {
+        for &m in ADAPTIVE.iter() {
+            let key = format!("ratio_{}", mname(m));
+            if let (Some(q90), Some(q50)) = (rep.quantile(&key, 0.9), rep.quantile(&key, 0.5)) {
+                rep.worst(&format!("ratio_q90_{}", mname(m)), q90);
+                rep.worst(&format!("ratio_q50_{}", mname(m)), q50);
+                let lim = q90_limit(m);
+                if q90 > lim {
+                    rep.violate(&format!("C01/error_distribution/{}/q90", mname(m)), format!("90 % of the runs should have err <= {} x A x naccpt x (atol + rtol|y|) but the 90 % quantile is {:.2} (median {:.2})", lim, q90, q50), &format!("quantile/{}", mname(m)), json!({"method": mname(m), "q90": q90, "q50": q50, "runs": rep.series.get(&key).map(|v| v.len())}));
+                }
+            }
+        }
+    }
     (rep, meta)
+}
+
+#[allow(dead_code)]
+pub fn debug_dop853() {
+    let bases = vec![
+        Base::PR { lam: -1.8733621807764245, om: 3.4123798700470758, u0: -0.44219300807687656 },
+        Base::Rot { a: -0.25525159377533196, w: 0.7497776621052811, u0: [-0.24676224512617084, 0.34818156413581036] },
+        Base::Rot { a: -0.3019578343909481, w: 0.6821397550295301, u0: [-0.10332324504007184, 0.6491041566197022] },
+        Base::Tanh { a: 0.632964525094744, u0: 0.4184639993405271 },
+    ];
+    let x0 = -0.5908077916519481;
+    let xend = 3.4952289011927897;
+    let prob = Composite::new(bases, Warp::Id, None, x0);
+    for m in [Method::DOP853, Method::DOPRI5] {
+        for tol in [1e-9, 1e-10, 1e-11] {
+            let mut scn = Scn::new(m, x0, xend, prob.y0());
+            scn.rtol = Tol::V(vec![tol; 6]);
+            scn.atol = Tol::V(vec![tol * 1e-2; 6]);
+            let r = run_solve(&prob, &scn, false, false);
+            let sol = r.out.sol().unwrap();
+            println!("{} tol {:e}: naccpt {} nrejct {} nfev {}", mname(m), tol, sol.naccpt, sol.nrejct, sol.nfev);
+            for (k, &t) in sol.t.iter().enumerate() {
+                let ex = prob.exact(t).unwrap();
+                let e = sol.y[k].iter().zip(&ex).fold(0.0f64, |mx, (a, b)| mx.max((a - b).abs()));
+                if m == Method::DOP853 {
+                    println!("   t={:9.5} h={:9.3e} err={:9.3e} ({:8.1} tol)", t, if k > 0 { t - sol.t[k - 1] } else { 0.0 }, e, e / tol);
+                }
+            }
+        }
+    }
 }
